@@ -439,7 +439,30 @@ func prevStep(c *Ctx, r *Report, rule string) {
 	n := 0
 	allInstrs(fn, func(in ssa.Instruction) {
 		phi, ok := in.(*ssa.Phi)
-		if !ok || phi.Comment != "l" {
+		if !ok {
+			return
+		}
+		// the outer index: it starts from len(s) (minus something), not from another index of the walk
+		fromLen := false
+		for _, e := range phi.Edges {
+			if _, isPhi := e.(*ssa.Phi); isPhi {
+				continue
+			}
+			sl := sliceOf(e)
+			hasLen, hasPhi := false, false
+			for o := range sl {
+				if call, isCall := o.(*ssa.Call); isCall && calleeNameSSA(&call.Call) == "builtin.len" {
+					hasLen = true
+				}
+				if _, isP := o.(*ssa.Phi); isP {
+					hasPhi = true
+				}
+			}
+			if hasLen && !hasPhi {
+				fromLen = true
+			}
+		}
+		if !fromLen || !backTarget(fn, phi.Block()) {
 			return
 		}
 		// the values that are the header phi itself, possibly merged again on the way to the latch
@@ -909,7 +932,7 @@ func hopLimitAdmits(c *Ctx, r *Report, rule string, need int64) {
 		}
 		for _, in := range b.Instrs {
 			ptr, ok := in.(*ssa.Phi)
-			if !ok || ptr.Comment != "ptr" {
+			if !ok || !isHopCounter(ptr) {
 				continue
 			}
 			for i, p := range b.Preds {
